@@ -80,6 +80,9 @@ class APIEndpoint(BaseView):
     job = None
     """APIJob: he job triggered by the API endpoint."""
 
+    json_params = ()
+    """tuple: names of the json parameters accepted by the endpoint."""
+
     def __init_subclass__(cls, **kwargs):
         """Runs some health checks on class properties."""
         super().__init_subclass__(**kwargs)
@@ -98,6 +101,8 @@ class APIEndpoint(BaseView):
     def view(self, *args, **kwargs):
         """Flask view of the API endpoint."""
         json = request.get_json() or {}
+        if not isinstance(json, dict):
+            return invalid()
         user = session['user']
         LOG.info("Received order %r from user %r (%s, %s, %s)",
                  self.__class__.__name__,
@@ -108,8 +113,10 @@ class APIEndpoint(BaseView):
         except ValueError:
             return invalid()
 
+        # only the parameters that were validated make it to the job
+        settings = {key: json[key] for key in self.json_params if key in json}
         job = self.job(kwargs=kwargs, user=user,
-                       settings=json, bert_e=current_app.bert_e)
+                       settings=settings, bert_e=current_app.bert_e)
         current_app.bert_e.put_job(job)
 
         return Response(job.as_json(), 202, {'Content-Type': 'text/json'})
